@@ -543,6 +543,9 @@ func racePhase(rep *report, seed uint64, models, nops, only int, scratch string)
 		}
 		errorPathStorm(rep, w, r, idx, roots)
 		exportNetworkRound(rep, w, t, r, idx, scratch, roots)
+		// LAST (its own fork of the stream: the cases above are unchanged): payloads decoded in a
+		// shared receive buffer (rxbuf.go)
+		rxBufferRounds(rep, w, r.fork(0x7278), idx, 6)
 	}
 }
 
